@@ -53,6 +53,10 @@ def idioms_of(doc: canon.Doc) -> set[str]:
     ids = set()
     if doc.header:
         ids.add("header-comment")
+    if doc.head_comments:
+        ids.add("head-comment")
+    if doc.head_blank:
+        ids.add("head-blank-line")
     for w in doc.wrappers:
         ids.add("wrapper:" + w[0])
 
@@ -62,6 +66,10 @@ def idioms_of(doc: canon.Doc) -> set[str]:
             ids.add("rec")
         if s.trailing:
             ids.add("set-trailer-comment")
+            if s.trailing_blank:
+                ids.add("set-trailer-comment-after-blank")
+            if s.entries and s.entries[-1].eol:
+                ids.add("eol-comment-then-trailer")
         for e in s.entries:
             ids.add("entry:" + e.kind)
             if e.above:
@@ -146,7 +154,8 @@ def run_shard(spec):
     if spec["kind"] == "canon":
         for di in range(spec["docs"]):
             g = canon.DocGen(rng, hyphen=True, max_entries=rng.choice([3, 7, 7, 15, 60]),
-                             depth=rng.choice([1, 2, 3, 4]))
+                             depth=rng.choice([1, 2, 3, 4]),
+                             comment_rate=rng.choice([1.0, 1.0, 3.0, 6.0]))
             d = g.doc(layers=rng.choice([0, 0, 1, 1, 2, 3]))
             text = canon.render(d)
             ids = idioms_of(d)
